@@ -16,4 +16,5 @@ for id in "$@"; do
 done
 # found-* cases produced against the mutant are not regressions of /repo: drop them
 cd /verif && git status --porcelain replays | grep '^??' | awk '{print $2}' | xargs -r rm -rf
+find /verif/replays -name 'found-*' -newer "$d" -delete 2>/dev/null
 rm -rf "$d"
